@@ -37,10 +37,58 @@ RULE = ("random series x window x penalty x psi x max_step x max_dist x inner_di
 GUARD = "lengths>=1, window None or >=1, penalty>=0, non-degenerate psi"
 
 
+def wpsk_case(rng, maxlen):
+    """struct-level input for the kernels that fill the compact warping-paths array (dtw_warping_paths_ndim /
+    _ndim_euclidean called through ctypes on a buffer of exactly dtw_settings_wps_length cells, pre-filled with 777):
+    compared cell by cell, marks and value included, with the kernels regenerated from dd_dtw.c (oracle cwpsk)"""
+    variant = rng.randint(0, 1)
+    nd = rng.choice([1, 1, 2, 3])
+    if rng.random() < 0.35:
+        r, c = dtwgen.focus_lengths(rng, max(5, maxlen))
+    else:
+        r, c = rng.randint(1, maxlen), rng.randint(1, maxlen)
+    m = max(r, c)
+    psi = [rng.choice([0, 0, rng.randint(0, r)]), rng.choice([0, 0, rng.randint(0, r)]),
+           rng.choice([0, 0, rng.randint(0, c)]), rng.choice([0, 0, rng.randint(0, c)])]
+    st = {"window": rng.choice([0, 0, 1, 1, 2, 3, rng.randint(1, m + 2)]), "max_dist": rng.choice([0, 0, 0, 1, 2, 3, 5, 9]),
+          "max_step": rng.choice([0, 0, 0, 1, 2, 3, 4]), "penalty": rng.choice([0, 0, 1, 2, 3]), "psi": psi,
+          "use_pruning": rng.random() < 0.2, "only_ub": rng.random() < 0.03}
+    s1 = dtwgen.rand_series(rng, r, nd) if nd > 1 else [[v] for v in dtwgen.rand_series(rng, r, 1)]
+    s2 = dtwgen.rand_series(rng, c, nd) if nd > 1 else [[v] for v in dtwgen.rand_series(rng, c, 1)]
+    if nd > 1 and variant == 1:
+        from harness.props import C11
+        single = ([rng.randint(-2, 2) for _ in range(nd)], rng.randrange(nd))
+        if rng.random() < 0.5:
+            a, b = rng.choice(C11.PYTH)
+            direction = [0] * nd
+            i, j = rng.sample(range(nd), 2)
+            direction[i], direction[j] = a, b
+            single = ("line", [rng.randint(-2, 2) for _ in range(nd)], direction)
+        s1, s2 = C11.rand_nd(rng, r, nd, single), C11.rand_nd(rng, c, nd, single)
+    # the squared kernel is compared in the internal representation (the final sqrt loop maps a cell v to sqrt(v); the
+    # integer model can only follow it on perfect squares)
+    flags = {"return_dtw": rng.random() < 0.9, "keep_int_repr": True if variant == 0 else rng.random() < 0.5,
+             "psi_neg": rng.random() < 0.5}
+    return {"site": "c.wpsk", "variant": variant, "ndim": nd, "r": r, "c": c, "s1": s1, "s2": s2, "cst": st, "flags": flags,
+            "psi_neg": flags["psi_neg"], "keep_int_repr": flags["keep_int_repr"], "p1b": psi[0], "p1e": psi[1], "p2b": psi[2], "p2e": psi[3],
+            "settings": {"window": st["window"] or None, "psi": psi, "penalty": st["penalty"], "max_step": st["max_step"],
+                         "max_dist": st["max_dist"], "use_pruning": st["use_pruning"], "max_length_diff": None,
+                         "inner_dist": "euclidean" if variant else "squared euclidean"}}
+
+
+def wpsk_line(c):
+    st, fl = c["cst"], c["flags"]
+    flat = lambda s: " ".join(str(int(v)) for p in s for v in p)
+    return "cwpsk %d %d %d %d %d %d %d %d %d %d %d %d %d %d %d %d %s %d %s" % (
+        c["variant"], st["window"], st["max_dist"], st["max_step"], st["penalty"], st["psi"][0], st["psi"][1], st["psi"][2],
+        st["psi"][3], int(st["use_pruning"]), int(st["only_ub"]), int(fl["return_dtw"]), int(fl["keep_int_repr"]),
+        int(fl["psi_neg"]), c["ndim"], len(c["s1"]), flat(c["s1"]), len(c["s2"]), flat(c["s2"]))
+
+
 def gen_cases(rng, tier):
     n = 2400 if tier == "quick" else 30000
     maxlen = 7 if tier == "quick" else 10
-    cases = []
+    cases = [wpsk_case(rng, maxlen) for _ in range(n // 3)]
     for k in range(n):
         site = ["py.wps", "c.wps", "c.wps_compact"][k % 3]
         case = dtwgen.rand_case(rng, site, maxlen=maxlen)
@@ -65,6 +113,15 @@ def gen_cases(rng, tier):
 
 
 def expected(cases, oracle):
+    kidx = [k for k, c in enumerate(cases) if c["site"] == "c.wpsk"]
+    kans = dict(zip(kidx, oracle.query([wpsk_line(cases[k]) for k in kidx])))
+    allc = cases
+    cases = [c for c in allc if c["site"] != "c.wpsk"]
+    rest = iter(expected_main(cases, oracle))
+    return [({"wpsk": kans[k]} if c["site"] == "c.wpsk" else next(rest)) for k, c in enumerate(allc)]
+
+
+def expected_main(cases, oracle):
     lines = []
     for c in cases:
         lines.append(dtwgen.oracle_line("wps", c))
@@ -139,6 +196,26 @@ def expected(cases, oracle):
 def impl_run(case):
     from harness import dtwimpl
     site = case["site"]
+    if site == "c.wpsk":
+        import ctypes
+        from harness import craw
+        L = craw.lib()
+        cs, fl = case["cst"], case["flags"]
+        st = L.dtw_settings_default()
+        for f in ("window", "max_dist", "max_step", "penalty", "use_pruning", "only_ub"):
+            setattr(st, f, cs[f])
+        st.inner_dist = case["variant"]
+        st.psi_1b, st.psi_1e, st.psi_2b, st.psi_2e = cs["psi"]
+        a, b = craw.arr(case["s1"]), craw.arr(case["s2"])
+        n = L.dtw_settings_wps_length(len(case["s1"]), len(case["s2"]), ctypes.byref(st))
+        buf = (craw.seq_t * n)(*([777.0] * n))
+        name = "dtw_warping_paths_ndim" if case["variant"] == 0 else "dtw_warping_paths_ndim_euclidean"
+        f = getattr(L, name)
+        f.restype = craw.seq_t
+        f.argtypes = L.dtw_warping_paths_ndim.argtypes
+        v = f(buf, a, len(case["s1"]), b, len(case["s2"]), fl["return_dtw"], fl["keep_int_repr"], fl["psi_neg"], case["ndim"],
+              ctypes.byref(st))
+        return {"v": v, "cells": list(buf)}
     res = dtwimpl.run(case)
     if site != "c.wps_compact" or not isinstance(res, dict):
         return res
@@ -274,7 +351,35 @@ def judge_matrix(case, exp, got_m, r0=0, c0=0, allow_marks=True):
     return {"kind": "marks-wrong", "marks": sorted(marks), "full": full}
 
 
+def judge_wpsk(case, g, exp):
+    a = exp["wpsk"]
+    if a.startswith("ERR"):
+        return {"kind": "oracle-error", "detail": a}
+    head, cells, okflag = a.split(" | ")
+    if okflag != "ok":
+        return {"kind": "wpsk:regenerated-kernel-reports-out-of-bounds-access", "model": head}
+    tag, val = head.split()
+    v = math.inf if val == "inf" else int(val)
+    if tag == "sqrt" and v != math.inf:
+        v = math.sqrt(v)
+    if float(g["v"]) != float(v):
+        return {"kind": "wpsk:value-differs-from-regenerated-kernel", "c": g["v"], "model": head}
+    mc = [math.inf if t == "inf" else int(t) for t in cells.split()]
+    if len(mc) != len(g["cells"]):
+        return {"kind": "wpsk:buffer-length", "c": len(g["cells"]), "model": len(mc)}
+    for k, (x, y) in enumerate(zip(g["cells"], mc)):
+        if float(x) != float(y):
+            return {"kind": "wpsk:cell-differs-from-regenerated-kernel", "slot": k, "c": float(x), "model": y}
+    return None
+
+
 def judge(case, got, exp):
+    if case["site"] == "c.wpsk":
+        if "crash" in got:
+            return {"kind": "crash", "detail": got}
+        if "exc" in got:
+            return {"kind": "harness-exception:" + got["exc"], "detail": got.get("msg")}
+        return judge_wpsk(case, got["ok"], exp)
     if "err" in exp:
         return {"kind": "oracle-error", "detail": exp["err"]}
     if "crash" in got:
